@@ -684,6 +684,9 @@ func (g *Gen) checkFrame(st State, reach string, pos token.Pos) {
 		if strings.HasPrefix(n, "C.") || strings.HasPrefix(n, "L.") {
 			continue
 		}
+		if gv, ok := g.cs.Ghosts[strings.TrimPrefix(n, "ghost.")]; ok && strings.HasPrefix(n, "ghost.") && gv.Scratch {
+			continue
+		}
 		if g.interfered[n] && !g.writtenByUs(n) {
 			continue // changed only by the monitor's interference model, never by this function
 		}
